@@ -53,10 +53,32 @@ def decorate_config(sc, prof, rr):
     if sc.get("cli") is not None:
         if rr.random() < prof.get("cfg_p", .6):
             sc["cli"], _ = add_harmless(sc["cli"], rr)
+        # (drawn last: the argv above is what it was)  How far the command-line path is followed: until now start_listen was only
+        # asked for the keyword arguments it gives the Receiver, and the Receiver ran on the driver's own loop.  With probability
+        # entry_p (default .4) the real start_listen RUNS the worker: on the event loop it creates and configures itself, with the
+        # pool it builds, stopped through the signal handler it installs (cli_glue.run_start_listen).
+        #   sc["entry"] = "start_listen"; sc["entry_opts"] = dict(sig: INT | TERM | HUP (which signal requests the stop),
+        #   broker_as: object | factory (the broker path names a function returning the broker), again_us: the signal is
+        #   repeated that much later - still below the hard-kill count)
+        if rr.random() < prof.get("entry_p", .4) and not pool_facts(sc["cli"])["process_pool"]:
+            sc["entry"] = "start_listen"
+            eo = dict(sig=rr.choice(["INT", "INT", "TERM", "TERM", "HUP"]), broker_as=rr.choice(["object", "object", "factory"]))
+            if (sc.get("stop_us") is not None or sc.get("stop_on")) and hardkill_count(sc["cli"]) >= 1 and rr.random() < .25:
+                eo["again_us"] = rr.choice([0, 1, 50_000, POLL, US])
+            sc["entry_opts"] = eo
     elif sc["N"] is None and sc.get("wtt_us") is None and rr.random() < prof.get("api_p", .15):
         kw = api_kwargs(sc, rr)
         sc["api"] = kw
     return sc
+
+
+def hardkill_count(argv):
+    """--hardkill-count of an argv (default 3): that many repeated signals are still a soft stop"""
+    for k, t in enumerate(argv):
+        head, _, val = t.partition("=")
+        if head == "--hardkill-count":
+            return int(val) if val else int(argv[k + 1])
+    return 3
 
 
 def api_kwargs(sc, rr):
@@ -382,7 +404,7 @@ def decorate_reg(sc, prof, rr):
 LIVE_EXC = ["connection", "connection", "runtime", "timeout", "os", "eof", "custom", "falsy", "group", "broker"]
 
 
-def gen_live(r, prof):
+def gen_live(r, prof, base=None, n_faults=None):
     """Scenario family (own random stream, the caller passes its own generator): the REAL taskiq.api.run_receiver_task coroutine
     runs for the whole scenario on the virtual loop, over the scripted broker whose listen() raises - a dropped connection - at
     scripted points; run_receiver_task then builds / starts its receiver again and the remaining messages are served to that one.
@@ -395,7 +417,8 @@ def gen_live(r, prof):
                 functools.partial(Receiver, max_tasks_to_execute=N) does).  A stop request sets the finish event
                 run_receiver_task gave to listen().
     Every listen() call is one *session*; the LTS models one session, so these runs are decided by the direct oracles only."""
-    base = gen_base(r, dict(prof, cli_p=0))
+    if base is None:
+        base = gen_base(r, dict(prof, cli_p=0))
     sc = decorate(base, dict(prof, api_p=0))
     msgs = sc["msgs"]
     n0 = sum(1 for m in msgs if not m.get("probe"))
@@ -403,7 +426,7 @@ def gen_live(r, prof):
     # upper bound on the time all the work of the scenario takes (the horizon was computed from it)
     work = sc["horizon_us"] - last_at - (sc["stop_us"] or 0) - (sc["wtt_us"] or 0)
     faults, extra = [], 0
-    for _ in range(r.choice([0, 1, 1, 1, 1, 2, 2, 3])):
+    for _ in range(r.choice([0, 1, 1, 1, 1, 2, 2, 3]) if n_faults is None else n_faults):
         k = r.randint(0, n0)
         if r.random() < .25:
             k = r.choice([0, n0])
@@ -445,8 +468,99 @@ def gen_live(r, prof):
     return sc
 
 
+def gen_live_cancel(r, prof):
+    """Scenario family (own random stream): an application EMBEDS the receiver - the real taskiq.api.run_receiver_task coroutine
+    runs as one task of its loop (gen_live) - and later CANCELS that task, the only way it has to end it, while its loop goes on
+    running.  What is new next to gen_live:
+      * SYNC task functions that take (virtual) time: m["style"] = "sync" with m["dur"] > 0 - the body runs in a thread of the
+        pool run_receiver_task builds (the real ThreadPoolExecutor with the clock account of vloop.VPool: sc["live"]["vpool"]);
+      * that pool has sync_workers = 1..3 threads, in most scenarios FEWER than the sync tasks in flight (max_async_tasks is
+        larger or unlimited, the messages arrive in a burst), so sync functions wait queued inside the pool;
+      * sc["live"]["cancel"] = dict(at_us) | dict(on = dict(tag, msg, plus_us)): the worker task is cancelled at an instant / that
+        long after the first raw-log entry (tag, msg) - mostly while a sync body is running (others queued behind it), also
+        right when a callback starts, at an arrival, after everything has finished; the run is then observed until the horizon
+        (the callbacks the worker left behind go on in the application's loop).  Raw log: CANCEL, pool.shutdown wait cancel_futures.
+    Most messages are ackable, all acknowledge types (when_executed more often).  0-1 listen() faults, now and then a stop request /
+    budget / stream end before the cancellation."""
+    base = gen_base(r, dict(prof, cli_p=0, never=0, probe=False, backlog=r.random() < .7))
+    msgs = base["msgs"]
+    k = r.choice([1, 1, 1, 2, 2, 3])
+    base["A"] = r.choice([None, 0, k + 1, k + 2, k + 3, 8, 2, 3, 4])
+    sync_p = r.choice([.3, .6, .6, .9])
+    for m in msgs:
+        if m["kind"] == "ok" and "tlabel_us" not in m and r.random() < sync_p:
+            m["style"] = "sync"
+            m["dur"] = r.choice([50_000, 300_000, US, US, 3 * US])
+        if m["kind"] == "ok" and m["ack"] == "none" and r.random() < .8:
+            m["ack"] = r.choice(["sync", "async"])
+    base["ack_type"] = r.choice([None, "when_received", "when_executed", "when_executed", "when_executed", "when_saved"])
+    t_last = msgs[-1]["at"]
+    work = sum(m["dur"] + m.get("cleanup_us", 0) for m in msgs if m["dur"] > 0) + sum(m.get("fail_after_us", 0) for m in msgs)
+    base["horizon_us"] = t_last + work + 8 * US + (base["stop_us"] or 0) + (base["wtt_us"] or 0)
+    syncs = [i for i, m in enumerate(msgs) if m["kind"] == "ok" and m["style"] == "sync" and not m.get("pre_fail")]
+    oks = [i for i, m in enumerate(msgs) if m["kind"] == "ok"]
+    x = r.random()
+    if syncs and x < .65:
+        i = r.choice(syncs[:max(1, len(syncs) // 2)]) if r.random() < .7 else r.choice(syncs)
+        d = msgs[i]["dur"]
+        cancel = dict(on=dict(tag="body.in", msg=i, plus_us=r.choice([0, 1, 1000, d // 2, d // 2, d - 1, d, d + 1])))
+    elif oks and x < .8:
+        cancel = dict(on=dict(tag="cb.start", msg=r.choice(oks), plus_us=r.choice([0, 0, 1, 50_000, POLL])))
+    elif x < .9:
+        cancel = dict(at_us=r.choice(msgs)["at"] + r.choice([0, 1, 2, 50_000, POLL, US]))
+    else:
+        cancel = dict(at_us=r.randrange(0, t_last + work + 2 * US))
+    sc = gen_live(r, prof, base=base, n_faults=r.choice([0, 0, 0, 1]))
+    sc["live"]["kw"]["sync_workers"] = k
+    sc["live"]["vpool"] = True
+    sc["live"]["cancel"] = cancel
+    # Known finding D16 (known_findings.json, signature sync_function_submitted_after_pool_shutdown; replay
+    # corpus/C02/known/d16_sync_function_submitted_after_pool_shutdown.json): a callback of a SYNC-function message that is still
+    # suspended BEFORE it hands its function to the pool (in an awaiting pre_execute hook, in a when_received acknowledgement
+    # that takes time) when the cancellation shuts the pool down gets "cannot schedule new futures after shutdown" as its
+    # result and is acknowledged without having run.  Such inputs ARE generated (the neighbourhood is explored; the property
+    # file classifies exactly that shape as the known finding) unless the profile says presubmit_restricted - a property
+    # that has no `known` entry for it keeps sync-function messages reaching the pool without suspending: an awaiting
+    # pre_execute hook becomes a post_execute one, a when_received acknowledgement completes at once.
+    if prof.get("presubmit_restricted"):
+        for m in sc["msgs"]:
+            if m["kind"] == "ok" and m.get("style") == "sync":
+                if (m.get("hook_aw") or {}).get("where") == "pre":
+                    m["hook_aw"]["where"] = "post"
+                if sc["ack_type"] == "when_received" and (m.get("ack_us") or m["ack"] not in ("none", "sync", "async")):
+                    m["ack"] = "async"
+                    m.pop("ack_us", None)
+    return sc
+
+
 def is_live(sc):
     return sc.get("live") is not None
+
+
+# known finding D16 (known_findings.json): shared by the property files that see runs of gen_live_cancel
+SIG_D16 = "sync_function_submitted_after_pool_shutdown"
+POOL_CLOSED = "RuntimeError: cannot schedule new futures after shutdown"
+
+
+def d16_facts(sc, f, i, ack_t):
+    """the elements of D16's signature for message i whose ack callable was invoked at ack_t (all read from the scenario and
+    the raw log): live run_receiver_task run | the worker task was cancelled before that ack | sync function | it never
+    started | the error its result carries is the RuntimeError of a shut-down executor | when_executed / when_saved"""
+    return dict(live=is_live(sc), worker_cancelled_before_ack=f.cancel_t is not None and ack_t is not None and ack_t >= f.cancel_t,
+                sync=sc["msgs"][i].get("style") == "sync", never_started=not f.bodyin.get(i), error=f.err.get(i),
+                ack_type=sc.get("ack_type") or "when_saved")
+
+
+def sig_d16(fl):
+    """EXACTLY the known finding, nothing wider (a cancelled pool future - CancelledError - is not it)"""
+    d = (fl.get("sig") or {}).get("d16") or {}
+    return (d.get("live") is True and d.get("worker_cancelled_before_ack") is True and d.get("sync") is True
+            and d.get("never_started") is True and d.get("error") == POOL_CLOSED
+            and d.get("ack_type") in ("when_executed", "when_saved"))
+
+
+def d16_registered(pid):
+    return any(k.get("property") == pid and k.get("status") == "known" and k.get("signature") == SIG_D16 for k in C.load_known())
 
 
 def mw_pre_fails(m):
@@ -516,6 +630,12 @@ def count_inputs(rep, sc):
         rep.count("config:cli-worker-options-beside-the-receiver's:%s" % (min(len(more), 5) if len(more) < 5 else "5+"))
         for t in more:
             rep.count("config:cli-option:" + t)
+    if sc.get("entry"):
+        eo = sc.get("entry_opts") or {}
+        rep.count("entry:start_listen-runs-the-worker-on-the-loop-it-created")
+        rep.count("entry:stop-by-signal-handler=SIG%s%s" % (eo.get("sig", "INT"), "/repeated" if eo.get("again_us") is not None else "")
+                  if sc.get("stop_us") is not None or sc.get("stop_on") else "entry:no-stop-request")
+        rep.count("entry:broker-path-names-" + eo.get("broker_as", "object"))
     if sc.get("api") is not None:
         a = sc["api"]
         rep.count("config:api-sync_workers=%s" % ("given" if a.get("sync_workers") else "default"))
@@ -535,6 +655,11 @@ def count_inputs(rep, sc):
         for f in fl:
             rep.count("live:fault-point=%s%s" % (f.get("mode", "?"), "/held-until-queue-empty" if f.get("hold") else ""))
             rep.count("live:fault-exception=" + f["exc"])
+        cn = sc["live"].get("cancel")
+        if cn:
+            rep.count("live-cancel:worker-task-cancelled-" + ("at-an-instant" if not cn.get("on") else "relative-to-%s" % cn["on"]["tag"]))
+            rep.count("live-cancel:sync_workers=%s" % sc["live"]["kw"].get("sync_workers"))
+            rep.count("live-cancel:sync-functions-taking-time=%s" % min(6, sum(1 for m in sc["msgs"] if m.get("style") == "sync" and m["dur"] > 0)))
         rep.count("live:trigger=" + ("stop" if sc.get("stop_us") is not None or sc.get("stop_on") else "-") + ("+N" if sc["N"] else "")
                   + ("+end" if sc.get("ends") else "") + ("+probe" if "probe_at" in sc else ""))
     if sc.get("mws"):
@@ -746,6 +871,8 @@ class Facts:
         self.stop_t = next((e[0] for e in raw if e[1] == "STOP"), None)
         self.brk_end_t = next((e[0] for e in raw if e[1] == "END"), None)
         self.ret_t = next((e[0] for e in raw if e[1] == "RETURN"), None)
+        # the application cancelled the run_receiver_task task (gen_live_cancel)
+        self.cancel_t = next((e[0] for e in raw if e[1] == "CANCEL"), None)
 
         def times(tag):
             d = {}
@@ -758,6 +885,11 @@ class Facts:
         self.bodyin, self.bodyout, self.acks = times("body.in"), times("body.out"), times("ack")
         self.ackend = times("ack.end")       # `ack` = the ack callable was invoked, `ack.end` = the acknowledgement completed
         self.save, self.saveend = times("save"), times("save.end")     # set_result entered / the attempt has completed
+        # class and message of the error the execution of message i ended with, as post_execute / the result backend saw it
+        self.err = {}
+        for e in raw:
+            if e[1] in ("hook.post", "save") and e[3]:
+                self.err.setdefault(e[2], e[3])
         N = sc["N"]
         self.budget_t = self.takes[N - 1][0] if N and len(self.takes) >= N else None
         # run_receiver_task life cycle (sc["live"]): every call of the broker's listen() is one session
@@ -914,7 +1046,36 @@ def count_live(rep, sc, o):
             peak = max(peak, len(cur))
         if peak > A:
             rep.count("live:callbacks-of-old-and-new-session-together-exceed-A(not-demanded)")
+    if sc["live"].get("cancel"):
+        count_cancel(rep, sc, o, f)
     rep.count("live:" + ("returned" if o["returned"] else "cut"))
+
+
+def count_cancel(rep, sc, o, f=None):
+    """evidence: what the cancellation of the worker task found (from the raw log)"""
+    f = f or Facts(sc, o)
+    if f.cancel_t is None:
+        rep.count("live-cancel:run-ended-before-the-cancellation")
+        return
+    k = next(j for j, e in enumerate(f.raw) if e[1] == "CANCEL")
+    before = f.raw[:k]
+
+    def n(tag, i):
+        return sum(1 for e in before if e[1] == tag and e[2] == i)
+
+    inflight = [i for i in f.cbstart if n("cb.start", i) and not n("cb.end", i)]
+    sync = [i for i in inflight if sc["msgs"][i].get("style") == "sync" and sc["msgs"][i]["kind"] == "ok"]
+    running = [i for i in sync if n("body.in", i) and not n("body.out", i)]
+    waiting = [i for i in sync if n("hook.pre", i) and not n("body.in", i)]
+    rep.count("live-cancel:sync-bodies-running-at-the-cancellation=%d" % min(len(running), 4))
+    rep.count("live-cancel:sync-functions-queued-in-the-pool-at-the-cancellation=%s" % ("0" if not waiting else "1" if len(waiting) == 1 else "2+"))
+    rep.count("live-cancel:async-callbacks-in-flight-at-the-cancellation=%s" % ("0" if len(inflight) == len(sync) else "1+"))
+    for e in f.raw:
+        if e[1] == "pool.shutdown":
+            rep.count("live-cancel:pool.shutdown(wait=%s,cancel_futures=%s)" % (e[2], e[3]))
+    late = [i for i in waiting if f.bodyin.get(i)]
+    if late:
+        rep.count("live-cancel:queued-sync-function-ran-after-the-cancellation")
 
 
 def replay_print(ctx, path, oracle, check):
@@ -936,6 +1097,8 @@ def replay_print(ctx, path, oracle, check):
         print("  %10d %s %s%s" % (e[0], e[1], "" if e[2] is None else e[2],
                                    " (the callback task ended CANCELLED)" if e[1] == "cb.done" and e[3] == "cancelled" else
                                    " (%s)" % e[3] if e[1] in ("ack", "hook.aw", "hook.aw.end", "hook.begin", "hook.end", "FAULT", "REG", "WORKER.END") and e[3] else
+                                   " (wait=%s, cancel_futures=%s)" % (e[2], e[3]) if e[1] == "pool.shutdown" else
+                                   " (result carries the error %s)" % e[3] if e[1] in ("hook.post", "save") and e[3] else
                                    " (taken by listen() session %d)" % e[3] if e[1] == "TAKE" and e[3] is not None else
                                    " (a task was created while this message's callback task was running)" if e[1] == "bg.new" else ""))
     print("  (%d raw events, idle polling omitted)" % len(raw))
